@@ -17,7 +17,7 @@ namespace Badger
 
 theorem C11_open_ts (ro : Bool) (img : Image) (r : RState) (h : recover ro img = .ok r) :
     ∀ e ∈ r.entries, e.ver < r.nextTxnTs := by
-  unfold recover recoverF at h
+  unfold recover recoverF recoverG at h
   simp only at h
   repeat' split at h
   all_goals first | (cases h; done) | skip
